@@ -9,6 +9,33 @@ TB = ("Trusted: Lean 4.33 kernel; axioms propext/Classical.choice/Quot.sound onl
       "(generators, canonicalisation, oracle). The tie model<->code is regenerated facts + behavioural correspondence (a search).")
 
 CHECKS = {
+ "C07": dict(
+  text="Lean theorems over models that mirror the replication code (wire format of ExportTx/ReplicateTx with Go panics explicit; the replica store: "
+       "ReplicateTx -> precommit with a supplied header, every check in the code's order -> performPrecommit, sync/mayCommit, DiscardPrecommittedTxsSince, "
+       "AllowCommitUpto at store and database level, close/reopen re-loading the tx log; the ack protocol of synchronous replication), abstract hash, "
+       "conclusions Good ∨ explicit collision: export_parse_roundtrip (values, empty values, by-digest form, v0/v1, any metadata; trailer optional); "
+       "replica_prefix_partial (ANY schedule of deliveries drawn from a genuine primary history — out of order, duplicates, retries, with/without skipIntegrityCheck, "
+       "interleaved with syncs, discards, allowances, restarts — leaves the replica with, position by position, the primary's first transactions: header, Alh, entries — under the hypothesis that the pooled Tx holds a zero BlRoot whenever a BlTxID=0 tx is expected; the unconditional statement is refuted by stale_blroot_breaks_rereplication) "
+       "and replica_accepts_next (completeness of the checks); replica_holds_wellformed_chain + replica_agrees_upto_matching_alh (ARBITRARY delivered bytes: the chain is always well formed, and a matching Alh at position n means the primary's headers, Alhs and entries up to n — the guarantee behind db.AllowCommitUpto(txID, alh)); replica_rejects_nonextending / _unparsable / replica_rejection_keeps_state (rejected without effect); "
+       "replica_rejects_altered_entries + entries_hash_binds_entries + value_hash_binds_value (integrity check on); accumulated_hash_binds_header; "
+       "sync replication over all interleavings: primary_commit_needs_acks (committed ≥ n ⇒ syncAcks distinct replicas informed a durable precommit ≥ n), "
+       "replica_commit_after_primary, primary_commit_within_allowance, reports_bounded. The unqualified sentence 'an altered export is rejected without effect' is FALSE for "
+       "the code and is refuted by witness theorems: altered_ts_accepted, altered_txmd_accepted (K3), skip_integrity_ignores_eh, values_stripped_accepted_same_alh, "
+       "allowance_survives_discard, buffer_full_rejection_is_reloaded, stale_blroot_breaks_rereplication; altered_header_detected_partial is the proved part (Alh differs ⇒ db.AllowCommitUpto refuses, successor rejected). "
+       "Tie: two real embedded stores under random histories (tx metadata, kv metadata, empty values, many entries, v0/v1, embedded values, values truncated by TruncateUptoTx) "
+       "and delivery schedules (in order, concurrent out-of-order within MaxActiveTransactions, duplicates, future ids, retries, close/reopen, discards, external allowance, Synced with "
+       "explicit Sync), an alteration stream over every byte class of the export (~70 classes, flips, coherent re-encodings, cuts, trailer variants), every call replayed on the Lean "
+       "driver (answer class, id, Alh, state digest, re-export bytes); pkg/database level: primary + 1..3 replica DBs, the fetch round played by hand in any replica order while a client "
+       "is blocked in Set, ExportTxByID answers and the primary's commit point compared with the ack model, replica 0's store followed by the byte-level model. "
+       "Oracle (model-independent): replica vs primary tx by tx (ExportTx bytes, headers, Alh, ReadTx entries, values, Get after indexing, DualProofs of the replica verified "
+       "against the primary's states), rejected ⇒ state digest unchanged, accepted altered ⇒ classified, Set returns only after syncAcks replicas informed, replica committed ≤ primary committed, "
+       "a copy of a Synced replica's directory re-opens with the reported precommit.",
+  note=TB + " Modelled rather than verified: aht.RootAt is replaced by its specification mth (C08 aht_root); one ReplicateTx call is one atomic step (a call that must wait for tx ID-1 is the "
+       "outcome 'blocked'; concurrent deliveries are linearised by the harness); entriesByKey is keyed by key (Go: sha256(key)); the pooled Tx's BlRoot is modelled for sequential use of the pool (proof/read calls on the replica between deliveries are not tracked); stale bytes after the re-loaded chain are assumed not to parse as a chaining record; the ack protocol "
+       "is modelled on ids only (Alh comparisons of ExportTxByID are in the byte model / oracle); gRPC streaming and the TxReplicator goroutines (pkg/replication) are not modelled: the harness plays "
+       "fetchNextTx by hand. Known findings (9 signatures, all confirmed on the real code) in known_findings.json.",
+  technique="Lean 4 proof (invariants over operation sequences and interleavings, collision-explicit hash binding) + differential correspondence on real stores/databases with schedule and alteration streams",
+  design="7/C07"),
  "C02": dict(
   text="Lean model of the commit protocol of embedded/store/immustore.go at lock granularity (own and replicated precommit with every guard in Go's order, "
        "performPrecommit, mayCommit/sync, DiscardPrecommittedTxsSince, AllowCommitUpto, SetExternalCommitAllowance, Close, Open incl. the reload of precommitted txs; tx log "
